@@ -66,6 +66,7 @@ def run(rep):
             key = 'C20:%s' % mm['at'].split(':')[0]
             rep.finding_or_violation(key, 'threads building %s / %s: with thread A pre-empted at %s (line event %d), thread %s obtains %s instead of %s' % (
                 mm['A'], mm['B'], mm['at'], mm['k'], who, str(mm[who + '_got'])[:160], str(mm[who + '_alone'])[:100]), mm)
+    n_slot = slot_correspondence(rep, code, quick)
     rep.coverage.update({'evaluations': nsched, 'distinct_nontrivial': nsched, 'traces_validated_against_impl': nsched, 'scenarios': sc,
                          'class_level_stores_read_from_code': code.get('class_level_stores'),
                          'rule': 'one pre-emption of thread A at an executed library line of its first use of a class (every line event inside xsd/ modules up to the cap, '
@@ -78,6 +79,49 @@ def run(rep):
                           {'theorem': res['failing'], 'publish_then_fill_sites': bad, 'log': res['log'][-2000:]}, found_input=False)
     rep.assumptions += ['CPython: a single attribute store and list.append are atomic; pre-emption between lines only (as the property states)',
                         'schedules with more than one pre-emption are covered by the theorem, not by the search']
+
+
+def slot_correspondence(rep, code, quick):
+    """Model/ClassSlots.v against CPython on the library's own classes: for every class-level store site with a classmethod, groups of real
+    classes (ancestor-closed), random sequences of uses in fresh processes; owner_run predicts who holds each returned value and who supplies
+    the slot to every class at the end.  A use that returns something else than the same use alone is a violation with its input."""
+    from . import extract
+    sites = sorted({(st[0], st[1], st[4]) for st in (code.get('class_level_stores') or [])})
+    job = {'sites': [list(x) for x in sites], 'seed': rep.seed, 'groups': 14 if quick else 120, 'max_uses': 5}
+    r = subprocess.run([C.PY, '-W', 'ignore', os.path.join(C.VERIF, 'corr', 'c20_slots_runner.py')], input=json.dumps(job), capture_output=True, text=True, env=C.impl_env(), timeout=1800)
+    if r.returncode != 0:
+        raise RuntimeError('c20 slots runner failed: ' + r.stderr[-1500:])
+    out = json.loads(r.stdout)
+    cases = [c for c in out['cases'] if 'child_error' not in c['impl']]
+    m = extract.Model()
+    try:
+        lines = []
+        for c in cases:
+            sched = ','.join('%d,%d' % (i, i) for i in range(len(c['uses'])))
+            lines.append('slots %d %s %s %s %s' % (len(c['mros']), ' '.join(','.join(map(str, x)) or '-' for x in c['mros']), c['bits'], ','.join(map(str, c['uses'])), sched))
+        mo = m.raw(lines) if lines else []
+    finally:
+        m.close()
+    bad = 0
+    for c, l in zip(cases, mo):
+        show = lambda xs: ','.join('-' if x == -1 else str(x) for x in xs)
+        got = show(c['impl']['res']) + ' ; ' + show(c['impl']['looks'])
+        order_dep = [(i, u) for i, u in enumerate(c['uses']) if c['impl']['res'][i] != c['alone'][str(u)]]
+        if order_dep:
+            i, u = order_dep[0]
+            bad += 1
+            if bad <= 3:
+                rep.violation('%s.%s: %s used after %s obtains the value held by %s; used alone in a fresh process it obtains the value held by %s' % (
+                    c['site'][0], c['site'][1], c['names'][u], [c['names'][x] for x in c['uses'][:i]],
+                    c['names'][c['impl']['res'][i]] if isinstance(c['impl']['res'][i], int) and c['impl']['res'][i] >= 0 else c['impl']['res'][i],
+                    c['names'][c['alone'][str(u)]]), dict(c, model=l))
+        elif got != l:
+            bad += 1
+            if bad <= 3:
+                rep.violation('class-slot model and implementation disagree on %s (%s): model %s, implementation %s' % (c['names'], c['site'][2], l, got), dict(c, model=l), found_input=False)
+    rep.coverage['class_slot_correspondence'] = {'sites': out['sites'], 'sites_without_a_classmethod': out['skipped_sites'], 'sequences_compared': len(cases), 'differences': bad,
+                                                'with_a_library_ancestor_in_the_group': sum(1 for c in cases if any(len(x) > 1 for x in c['mros']))}
+    return len(cases)
 
 
 def replay(path):
